@@ -212,7 +212,8 @@ def csv_strategy(tier):
         k = draw(st.integers(2, 3)) if b in model.WITHIN_TYPES else draw(st.integers(1, 3))
         T = sorted(draw(st.lists(st.sampled_from(cand), min_size=k, max_size=k, unique=True)))
         return {"spec": spec, "metric": draw(st.sampled_from(model.CONT_METRICS)), "bin_type": b, "thresholds": T,
-                "kind": draw(st.sampled_from(["text", "netcdf"]))}
+                "kind": draw(st.sampled_from(["text", "netcdf"])),
+                "axis": draw(st.sampled_from(["threshold", "threshold", "no", "leadtime", "location", "time", "month"]))}
     return s()
 
 
@@ -230,9 +231,14 @@ def check_csv(case, ctx):
     os.makedirs(d)
     paths, _ = mat.write_files(spec, d, case["kind"])
     T = case["thresholds"]
-    r = drive.run(paths + ["-m", case["metric"], "-x", "threshold", "-type", "csv", "-b", case["bin_type"], "-r", ",".join(repr(float(t)) for t in T)])
+    axis = case.get("axis", "threshold")
+    if axis != "threshold":
+        # one event on a data dimension: one row per slice, each the formula of that slice's table
+        T = T[:2] if case["bin_type"] in model.WITHIN_TYPES else T[:1]
+    r = drive.run(paths + ["-m", case["metric"], "-x", axis, "-type", "csv", "-b", case["bin_type"], "-r", ",".join(repr(float(t)) for t in T)])
     ctx.evals += 1
     ctx.label("csv/" + case["metric"])
+    ctx.label("csv-axis/" + axis)
     if r.exc is not None:
         ctx.fail("C06/csv/exc/" + r.exc_key, case, r.tb)
         return
@@ -242,12 +248,16 @@ def check_csv(case, ctx):
     h, rows = drive.parse_csv(r.lines())
     evs = model.events(case["bin_type"], T)
     n_in = len(spec["inputs"])
-    if len(rows) != len(evs):
-        ctx.fail("C06/csv/rows", case, "%d rows for %d events" % (len(rows), len(evs)))
+    if axis == "threshold":
+        cells = [(k, ev, "no", 0) for k, ev in enumerate(evs)]
+    else:
+        cells = [(k, evs[0], axis, k) for k in range(ds.n_slices(axis))]
+    if len(rows) != len(cells):
+        ctx.fail("C06/csv/rows", case, "%d rows for %d %s" % (len(rows), len(cells), "events" if axis == "threshold" else "slices"))
         return
-    for k, (t0, t1) in enumerate(evs):
+    for k, (t0, t1), ax, sl in cells:
         for i in range(n_in):
-            cs = ds.cases([("obs",), ("fcst",)], i, "no", 0)
+            cs = ds.cases([("obs",), ("fcst",)], i, ax, sl)
             eo = [model.in_event(case["bin_type"], o, t0, t1) for o, _ in cs]
             ef = [model.in_event(case["bin_type"], f, t0, t1) for _, f in cs]
             tab = [sum(1 for p, q in zip(eo, ef) if q and p), sum(1 for p, q in zip(eo, ef) if q and not p),
@@ -260,7 +270,7 @@ def check_csv(case, ctx):
                 if not math.isnan(g):
                     ctx.fail("C06/undefined/%s" % case["metric"], case, "csv reports %r for table %r" % (g, tab))
             elif not cmpx.printed_ok(g, ref, 6, rel=2e-6):
-                ctx.fail("C06/csv/%s" % case["metric"], case, "event %d input %d: csv %r, formula on table %r gives %r" % (k, i, g, tab, ref))
+                ctx.fail("C06/csv/%s" % case["metric"], case, "-x %s row %d input %d: csv %r, formula on table %r gives %r" % (axis, k, i, g, tab, ref))
 
 
 def campaigns(tier):
@@ -268,5 +278,5 @@ def campaigns(tier):
         Enum("tables", table_items, check_tables, "all 2x2 tables with total <= N (N=12 quick, 22 thorough)"),
         Hyp("random-tables", random_tables, check_tables, quick=800, thorough=20000),
         Hyp("vectors", vector_strategy, check_vectors, quick=3200, thorough=80000, budget_quick=50, budget_thorough=1200),
-        Hyp("csv", csv_strategy, check_csv, quick=640, thorough=16000, budget_quick=50, budget_thorough=1200),
+        Hyp("csv", csv_strategy, check_csv, quick=960, thorough=16000, budget_quick=50, budget_thorough=1200),
     ]
